@@ -47,7 +47,7 @@ fn main() {
         i += 2;
     }
     c20::try_req();
-    let gs = c20::groups();
+    let gs = c20::groups(matches!(tier, Tier::Quick), seed);
     let mut reports = Vec::new();
     for (k, g) in gs.iter().enumerate() {
         let gname = format!("{}#{}", prop, k);
